@@ -22,7 +22,10 @@ EXPLANATION = (
     "R4: every call of an operand hook, also through getattr and through helpers, passes (left operand, right operand) of the product being evaluated. "
     "R3: each _eval_derivative equals the formal derivative of the product for generic vector functions of the parameter "
     "(product rule; norm: dot(v, dv)/norm(v)). Not decided: the multilinear expansion engine (_ordered_mul / into_terms / "
-    "split_factor run SymPy's expand on arbitrary trees), termination of .diff, id()-order independence beyond R2.")
+    "split_factor run SymPy's expand on arbitrary trees), termination inside SymPy, id()-order independence beyond R2. "
+    "R5 (termination of this module's own recursion): every VectorExpr subclass is accepted by is_atomic_vector or defines both operand hooks "
+    "(otherwise a product re-evaluates itself with unchanged operands), and every .diff() inside an _eval_derivative is applied to a strict "
+    "sub-expression, to self.doit() behind a class test, or to a freshly built product from which the own class is not reachable.")
 ASSUMPTIONS = ["vectors are real 3-vectors; SymPy's Permutation.signature is the permutation sign",
                "value preservation of the expansion engine itself is not decided"]
 TRUSTED = ["sympy.combinatorics.Permutation.signature", "python ast", "sa/alg.py normal form"]
@@ -523,6 +526,97 @@ def _operand_worlds_at(fn: ast.FunctionDef, call: ast.Call) -> list:
     return [(w, call) for w in found]
 
 
+def _r5_termination(run: Run, mod) -> None:
+    """differentiation and re-evaluation are well-founded"""
+    classes = {c.name: c for c in mod.tree.body if isinstance(c, ast.ClassDef)}
+    # ---- (a) every irreducible vector class is atomic for the products
+    vec = {"VectorExpr"}
+    changed = True
+    while changed:
+        changed = False
+        for c in classes.values():
+            if c.name not in vec and any(dotted(b) in vec for b in c.bases):
+                vec.add(c.name)
+                changed = True
+    fn = next((f for f in mod.tree.body if isinstance(f, ast.FunctionDef) and f.name == "is_atomic_vector"), None)
+    if fn is None:
+        raise AnalysisError("C14: is_atomic_vector not found")
+    atomic = set()
+    for x in ast.walk(fn):
+        if isinstance(x, ast.Call) and dotted(x.func) == "isinstance" and len(x.args) == 2:
+            t = x.args[1]
+            atomic |= {dotted(e) for e in (t.elts if isinstance(t, ast.Tuple) else [t])}
+    for name in sorted(vec - {"VectorExpr"}):
+        c = classes[name]
+        run.ob("R5", f"irreducible-or-hooked:{name}")
+        own = {f.name for f in c.body if isinstance(f, ast.FunctionDef)}
+        hooked = set(HOOKS) <= own
+        if name not in atomic and not hooked:
+            run.violate("R5", f"{MOD}:{name}:neither-atomic-nor-reducible", mod, c,
+                        f"{name} is a vector expression that is_atomic_vector does not accept and that defines no operand hooks: a product with such an operand "
+                        f"re-evaluates itself (`cls(v, w)`) with unchanged operands - dot/cross/mixed products containing it never terminate")
+    # ---- (b) _eval_derivative recurses on strict sub-expressions only
+    may_build: dict = {}
+    for c in classes.values():
+        outs = set()
+        for f in c.body:
+            if isinstance(f, ast.FunctionDef) and f.name in ("__new__", "eval", "doit") + HOOKS:
+                outs |= {dotted(x.func) for x in ast.walk(f) if isinstance(x, ast.Call) and dotted(x.func) in classes}
+        may_build[c.name] = outs
+    hook_builds = set()
+    for c in classes.values():
+        for f in c.body:
+            if isinstance(f, ast.FunctionDef) and f.name in HOOKS:
+                hook_builds |= {dotted(x.func) for x in ast.walk(f) if isinstance(x, ast.Call) and dotted(x.func) in classes}
+    for c in classes.values():  # a constructor that calls the hooks may return whatever a hook builds
+        if any(isinstance(x, ast.Attribute) and x.attr in HOOKS for f in c.body if isinstance(f, ast.FunctionDef) and f.name == "__new__" for x in ast.walk(f)):
+            may_build[c.name] |= hook_builds
+
+    def reach(a: str) -> set:
+        seen, work = set(), [a]
+        while work:
+            k = work.pop()
+            for n in may_build.get(k, ()):
+                if n not in seen:
+                    seen.add(n)
+                    work.append(n)
+        return seen
+
+    from ..flow import CFG, conditions_for, stmt_of
+    n = 0
+    for c in classes.values():
+        f = next((m_ for m_ in c.body if isinstance(m_, ast.FunctionDef) and m_.name == "_eval_derivative"), None)
+        if f is None:
+            continue
+        for call in [x for x in ast.walk(f) if isinstance(x, ast.Call) and isinstance(x.func, ast.Attribute) and x.func.attr == "diff"]:
+            n += 1
+            recv = call.func.value
+            run.ob("R5", f"{c.name}._eval_derivative:{norm(call, 40)}")
+            why = None
+            if (isinstance(recv, ast.Name) and recv.id == "self") or (isinstance(recv, ast.Call) and dotted(recv.func) == "super"):
+                why = "calls diff() on the very expression being differentiated, which dispatches to this method again"
+            elif isinstance(recv, ast.Call) and dotted(recv.func) in classes:
+                y = dotted(recv.func)
+                if c.name == y or c.name in reach(y):
+                    why = f"differentiates a freshly built {y}(...), whose evaluation can produce a {c.name} again ({y} -> {sorted(reach(y))})"
+            elif isinstance(recv, ast.Name):
+                defs = [a for a in ast.walk(f) if isinstance(a, ast.Assign) and any(isinstance(t_, ast.Name) and t_.id == recv.id for t_ in a.targets)]
+                for d in defs:
+                    v = d.value
+                    if isinstance(v, ast.Call) and isinstance(v.func, ast.Attribute) and v.func.attr in ("doit", "simplify", "expand") and dotted(v.func.value) == "self":
+                        conds = conditions_for(f, stmt_of(f, call)) or []
+                        guarded = any(not p and isinstance(t_, ast.Call) and dotted(t_.func) == "isinstance" and dotted(t_.args[0]) == recv.id and dotted(t_.args[1]) == c.name for t_, p in conds
+                                      if not isinstance(t_, str)) or \
+                            any(p and isinstance(t_, ast.UnaryOp) and isinstance(t_.op, ast.Not) and isinstance(t_.operand, ast.Call) and dotted(t_.operand.func) == "isinstance"
+                                and dotted(t_.operand.args[0]) == recv.id and dotted(t_.operand.args[1]) == c.name for t_, p in conds if not isinstance(t_, str))
+                        if not guarded:
+                            why = f"differentiates `{norm(v, 30)}` without first making sure it is no longer a {c.name}"
+            if why:
+                run.violate("R5", f"{MOD}:{c.name}._eval_derivative:{norm(call, 50)}", mod, call,
+                            f"{c.name}._eval_derivative {why}: differentiating such an expression with a parameter-dependent operand never terminates")
+    run.floor("R5", n, 8, "diff() calls inside _eval_derivative methods")
+
+
 def check(run: Run) -> None:
     run.rule("R1", "every product rewrite rule (pattern => replacement) is a polynomial identity in the components of generic real 3-vectors")
     run.rule("R2", "sort_with_sign returns the permutation signature (0 on repeats); products multiply by it exactly when antisymmetric; special values for repeated operands")
@@ -535,3 +629,6 @@ def check(run: Run) -> None:
     _r3(run, mod)
     run.rule("R4", "operand hooks (_eval_vector_dot/_eval_vector_cross) are always called with (left operand, right operand) of the product being evaluated")
     _r4_hooks(run, mod)
+    run.rule("R5", "termination: every irreducible vector class is atomic for the products (or supplies operand hooks), and each _eval_derivative "
+             "differentiates strict sub-expressions only - never itself, nor a freshly built product whose evaluation can return the same class")
+    _r5_termination(run, mod)
